@@ -40,7 +40,8 @@ def main():
             continue
         # premise check (generator sanity): the library agrees nothing matches, every file parses
         ff = r["facts"]["files"]
-        premise = all(not f["parse_err"] and not any(s["matched"] for s in f["steps"]) for f in ff)
+        # (a file on which the step-by-step run panics has no steps: nothing matched as far as it got; the oracle below decides)
+        premise = all(not f["parse_err"] and not any(s["matched"] for s in (f.get("steps") or [])) for f in ff)
         if not premise:
             ck.mismatch("generator premise broken: a 'never matching' patch matched or a pool file does not parse (%s)" % pname,
                         rep, "generator premise of C06")
